@@ -289,6 +289,8 @@ class Exec(Engine):
             if t[0] != "dict":
                 raise TypeError("dict literal for non-dict")
             return V(t, (z3.K(sort_of(t[1]), FALSE), z3.Const(fresh_name("dval"), z3.ArraySort(sort_of(t[1]), sort_of(t[2])))))
+        if v.t[0] == "list" and not v.x and t == ("str",):
+            return vstr("")   # a list of string pieces that is only appended to and joined with "": modelled by its concatenation
         if v.t[0] == "emptyset":
             if t[0] not in ("set", "bag"):
                 raise TypeError("empty set literal for non-set")
@@ -494,6 +496,8 @@ class Exec(Engine):
         k, header, lc = self.loop_contract(stmt)
         if lc is None:
             raise ContractDrift(f"loop {k} ('{header}') of {self.name} has no invariant")
+        if coll.t[0] == "str":
+            return self.for_over_string(stmt, st, coll, k, lc)
         if coll.t[0] == "dict":
             coll = V(("bag", coll.t[1]), coll.x[0])
         if coll.t[0] == "opt":
@@ -548,6 +552,43 @@ class Exec(Engine):
         # exit: everything seen
         allseen = V(seen_t, coll.x)
         for e, t in self.spec_conj(lc["invariant"], ex, {"seen": allseen}, entry):
+            ex.assume(t)
+        ex.trace.append(f"loop{k}:exit")
+        self.apply_use(lc.get("use_at_exit", []), ex)
+        out.append(ex)
+        return out
+
+    def for_over_string(self, stmt, st, coll, k, lc):
+        """for ch in <str>: characters in order. The invariant may mention the ghost 'idx' = number of characters already
+        processed (0 on entry, len on exit); an arbitrary iteration processes coll[idx]."""
+        mods = assigned_names(stmt.body)
+        n = z3.Length(coll.x)
+        entry = {k_: deep_copy(v_) for k_, v_ in st.vars.items()}
+        for e, t in self.spec_conj(lc["invariant"], st, {"idx": vint(0)}, entry):
+            self.oblige(st, t, "inv.init", f"loop{k}.inv.init[{e[:50]}]", stmt.lineno)
+        it = st.fork()
+        self.havoc(it, mods - self._target_names(stmt.target))
+        idx = z3.Int(fresh_name("idx"))
+        ex = it.fork()
+        it.assume(z3.And(idx >= 0, idx < n))
+        for e, t in self.spec_conj(lc["invariant"], it, {"idx": vint(idx)}, entry):
+            it.assume(t)
+        self.assign(stmt.target, vstr(z3.SubString(coll.x, idx, 1)), it, stmt)
+        it.trace.append(f"loop{k}:iter")
+        out = []
+        if feasible(it):
+            self.cover(it, f"loop{k}.body", stmt.lineno)
+            for s in self.run_block(stmt.body, [it]):
+                if s.flow in ("normal", "continue"):
+                    s.flow = "normal"
+                    for e, t in self.spec_conj(lc["invariant"], s, {"idx": vint(idx + 1)}, entry):
+                        self.oblige(s, t, "inv.preserve", f"loop{k}.inv.preserve[{e[:50]}]", stmt.lineno)
+                elif s.flow == "break":
+                    s.flow = "normal"
+                    out.append(s)
+                else:
+                    out.append(s)
+        for e, t in self.spec_conj(lc["invariant"], ex, {"idx": vint(n)}, entry):
             ex.assume(t)
         ex.trace.append(f"loop{k}:exit")
         self.apply_use(lc.get("use_at_exit", []), ex)
